@@ -26,11 +26,11 @@ def run(ctx):
     ctx.assumptions += ['random picks: a region returned outside the candidate set is a violation; a candidate never returned is not',
                         'keys are compared as byte strings; the binding encodes model key k as "k%06d" and 0 / Inf as the empty key']
     ctx.mc('region', 'RegionIndex', 'MC_RegionIndex.cfg', timeout=600)
-    seeds = [ctx.seed] if q else [ctx.seed + k for k in range(4)]
+    seeds = [ctx.seed] if q else [ctx.seed + k for k in range(8)]
     nq = 0
     for sd in seeds:
         tr = os.path.join(ctx.dir, 'index_%d.ndjson' % sd)
-        vlib.run_harness(['region', 'index', 'out=' + tr, 'seed=%d' % sd, 'histories=%d' % (25 if q else 80), 'ops=%d' % (100 if q else 200),
+        vlib.run_harness(['region', 'index', 'out=' + tr, 'seed=%d' % sd, 'histories=%d' % (25 if q else 200), 'ops=%d' % (100 if q else 200),
                           'big=%d' % (2 if q else 5)])
         bad, evs = ctx.monitor_all('region', 'Trace_RegionIndex', 'Trace_RegionIndex.cfg', tr, 'index_%d' % sd, timeout=3000)
         nq += sum(len(e['qs']) for e in evs if e.get('ev') == 'q')
